@@ -527,6 +527,50 @@ int main(int argc, char **argv) {
         free(out);
         free(enc);
     }
+    /* automatic precision selection on ARRAYS: lengths around 64 and longer x data classes (float32-exact doubles with
+     * odd 24-bit significands, small integers, values with few fraction bits, alphabet mix) x requested errors */
+    if (vh_section_begin("auto-arrays")) {
+        static const size_t LEN[7] = {1, 2, 63, 64, 65, 100, 300};
+        static const double REQ[8] = {1e-15, 1e-12, 1.1920928955078125e-07 /* 2^-23 */, 5.9604644775390625e-08 /* 2^-24 */, 1e-6, 0.0009765625, 1e-3, 0.05};
+        static double av[300];
+        for (int li = 0; li < 7; li++) {
+            for (int dc = 0; dc < 5; dc++) {
+                for (int ri = 0; ri < 8; ri++) {
+                    if (!vh_case()) {
+                        continue;
+                    }
+                    size_t n = LEN[li];
+                    for (size_t i = 0; i < n; i++) {
+                        switch (dc) {
+                        case 0: /* float32 readings widened to double: bits 0..28 clear, bit 29 often set */
+                            av[i] = (double)(20.0f + 0.1f * (float)i);
+                            break;
+                        case 1: /* odd integers in [2^23, 2^24): 24 significant bits */
+                            av[i] = (double)(8388609 + 2 * (long)i);
+                            break;
+                        case 2: /* few fraction bits */
+                            av[i] = 25.5 + (double)i * 0.25;
+                            break;
+                        case 3: /* every element exactly a binary16 value (11 significant bits) */
+                            av[i] = (double)(1024 + (long)i) / 1024.0;
+                            break;
+                        default:
+                            av[i] = DA[(i * 97 + (size_t)li) % nDA];
+                            break;
+                        }
+                    }
+                    for (int mode = 0; mode < 3; mode++) {
+                        snprintf(desc, sizeof desc, "array of %zu %s, requested relative error %.17g mode %s", n,
+                                 dc == 0 ? "float32 readings widened to double" : dc == 1 ? "odd integers in [2^23, 2^24)" : dc == 2 ? "values with two fraction bits" : dc == 3 ? "binary16-exact values" : "alphabet values", REQ[ri], MN[mode]);
+                        run_case(av, n, 0, mode, REQ[ri]);
+                    }
+                    char ck[48];
+                    snprintf(ck, sizeof ck, "auto-arrays/class%d/n%zu", dc, n);
+                    vh_class(ck, "requested %.3g", REQ[ri]);
+                }
+            }
+        }
+    }
     /* automatic precision selection */
     if (vh_section_begin("auto")) {
         double R[64];
